@@ -1127,7 +1127,14 @@ class Function(Ring):
         return Function.pushforward(algopy.sign, [self])
 
     def sum(self, axis=None, dtype=None, out=None):
-        return Function.pushforward(algopy.sum, [self, axis, dtype, out])
+        # keyword arguments are recorded as such, so that the pullback
+        # receives (ybar, x, y, axis=..., out=(xbar,))
+        kwargs = {'axis': axis}
+        if dtype is not None:
+            kwargs['dtype'] = dtype
+        if out is not None:
+            kwargs['out'] = out
+        return Function.pushforward(algopy.sum, [self], Fkwargs=kwargs)
 
     def prod(self):
         return Function.pushforward(algopy.prod, [self])
